@@ -3,6 +3,7 @@ mod engine;
 mod gen;
 mod model;
 mod props;
+mod sched;
 
 use crate::core::*;
 use std::time::Instant;
